@@ -3,24 +3,25 @@ import dv, ls_common, pipe_common as pc
 
 META = {
     'category': 'proof',
-    'technique': 'Coq invariants and three machine-checked counter-examples over a gate-level interleaving model of dispenso::pipeline with throwing stages + lockstep replay of generated schedules (and of the counter-examples) on the real pipeline() with lifetime-tracked payloads + native histories',
-    'text': 'The property is FALSE of the code as written, in three ways, each a Coq theorem with a concrete run that is replayed on the real code on every check: C29_refuted (a task '
-            'already handed to the task set is skipped by the cancelled packageTask wrapper; the OnceFunction it wraps is never invoked nor cleaned up: the item payload leaks), '
-            'C29_hang_refuted (a queued generator instance is skipped the same way, its CompletionGuard never counts the latch down, pipeline() blocks for ever; every state reachable '
-            'from the witness state is that state), C29_escape_reachable (with a tight poolLoadFactor_ a generator instance runs inline inside execute(), its exception leaves '
-            'pipeline() while other instances still reference the pipes: use after free).  Proved for all schedules: pipeline() rethrows exactly when an exception was captured and '
-            'rethrows the first (then only) captured one (C29_first_exception_rethrown), no item twice (C29_no_item_twice), a generator instance that sees the exception produces '
-            'nothing more (C29_generator_stops), the pool is empty when pipeline() returns (C29_pool_usable_after), slot accounting stays consistent (C28_slot_invariant), and without '
-            'throwing stages nothing is ever skipped or stranded (C29_holds_except).',
+    'technique': 'Coq invariants, one machine-checked counter-example and two regression examples of repaired defects over a gate-level interleaving model of dispenso::pipeline with throwing stages + lockstep replay of generated schedules (and of the counter-examples) on the real pipeline() with lifetime-tracked payloads + native histories',
+    'text': 'The property was FALSE of the code in three ways.  Two are repaired in /repo and their Coq witnesses are now regression Examples replayed on the real code on every '
+            'check: the hang (1a07319: a queued generator instance skipped by the cancelled packageTask wrapper never counted the completion latch down; the CompletionGuard is now '
+            'owned by the task by value; C29_hang_regression, C29_completion_latch_owned: latch = instances that have not passed their guard, in every reachable state) and the escape '
+            '(f2764c3: a generator instance run inline inside execute() let its exception leave pipeline() while other instances referenced the pipes; the functor now records it in '
+            'the task set; C29_escape_regression, C29_generator_catches).  One remains a known finding: C29_refuted (a limited-stage task already handed to the task set is skipped by '
+            'the cancelled wrapper; the OnceFunction it wraps is never invoked nor cleaned up: the item payload leaks).  Proved for all schedules: pipeline() rethrows exactly when an '
+            'exception was captured and rethrows the first (then only) captured one (C29_first_exception_rethrown), no item twice (C29_no_item_twice), a generator instance that sees '
+            'the exception produces nothing more (C29_generator_stops), the pool is empty when pipeline() returns (C29_pool_usable_after), slot accounting stays consistent '
+            '(C28_slot_invariant), and without throwing stages nothing is ever skipped or stranded (C29_holds_except).',
     'note': 'Trusted: Coq kernel; harness/vsched.h and harness/life.h; SC interleaving of the gate operations; pool / ConcurrentTaskSet abstracted to a bag + inline decision + cancelled check; the two stores of trySetCurrentException are separate steps, its guard states kSetting/kSet are merged. No axioms.',
 }
 
 ASSUMPTIONS = [
     'sequentially consistent interleaving of the hooked gate operations; code between two hooks runs atomically in the lockstep runs (the theorems allow a switch after every frame transition)',
     'thread pool / ConcurrentTaskSet abstracted: a dispatched task is popped at most once (bag), schedule() either runs it inline or queues it, packageTask skips it when cancelled',
-    'the model stops where an exception leaves execute() (undefined behaviour in the real code); lockstep cases are generated outside that domain (poolLoadFactor_ >= generator instances - 1) except for the witness',
+    'the model would stop where an exception leaves execute(); since /repo f2764c3 the generator functor catches (C29_generator_catches), that no thread ever reaches that state is shown on the former witness and by the lockstep runs, not proved in general',
     'that a captured exception was thrown by some stage is checked on the implementation\'s log only (not proved in Coq); termination is refuted, not proved',
-    'native exception runs use one generator instance (outside the domain of the hang finding), because a native hang only ends with the harness alarm',
+    'native exception runs use one generator instance (a native hang would only end with the harness alarm)',
 ]
 
 
@@ -29,15 +30,9 @@ def run(ctx):
     exe = pc.harness()
     ctx.phase('build')
     r = ctx.rng
-    # 1. deterministic witnesses of the known findings, replayed on the real code
-    wk, wt = pc.run_lockstep(ctx, exe, [pc.WIT_LEAK, pc.WIT_HANG])
-    out_esc = ls_common.run_cases(exe, [pc.line_of(pc.WIT_ESCAPE)], jobs=1)[0]
-    pe = pc.parse_out(out_esc)
-    esc_repro = (pe is None) or ('error' in pe) or pe['status'] != 0
-    ctx.cov['witness_escape'] = {'case': pc.line_of(pc.WIT_ESCAPE)[:120], 'impl': (out_esc or '')[:200], 'reproduced': esc_repro}
-    if esc_repro:
-        ctx.violation('exception leaves pipeline() through execute() while generator tasks are queued (crash / undefined behaviour): ' + (out_esc or '')[:200],
-                      {'finding_key': pc.KEY_ESCAPE, 'case': pc.line_of(pc.WIT_ESCAPE)})
+    # 1. the witness of the remaining known finding (leak) and the former witnesses of the repaired ones (hang 1a07319, escape f2764c3),
+    #    replayed on the real code first; the repaired ones must now agree with the model and satisfy the property
+    wk, wt = pc.run_lockstep(ctx, exe, [pc.WIT_LEAK, pc.WIT_HANG, pc.WIT_ESCAPE])
     # 2. generated cases with exceptions
     n = 100 if ctx.quick else 2500
     cases = [pc.gen_case(r, exceptions=True, small=(i % 10 != 0) or ctx.quick) for i in range(n)]
@@ -45,7 +40,7 @@ def run(ctx):
     nn = 12 if ctx.quick else 120
     ncases = [pc.gen_native(r, exceptions=True) for _ in range(nn)]
     nkept, nterms = pc.run_native(ctx, exe, ncases, 2)
-    ctx.cov['evaluations'] += len(cases) + len(wk) + 1 + len(nkept)
+    ctx.cov['evaluations'] += len(cases) + len(wk) + len(nkept)
     distinct = set(o.split('| fin')[0] for c, p, o in kept if len(p['steps']) > 20)
     ctx.cov['distinct_nontrivial'] += len(distinct) + len(set(o for _, _, o in nkept))
     ctx.cov['rule'] = ('random pipelines with at least one throw position (stage x item first/middle/last/random, or the generator), 1-4 later stages, limits 1/2/3/unlimited/0,4,7, '
@@ -69,17 +64,15 @@ def run(ctx):
         line = pc.native_line(c, 1) if native else pc.line_of(c)
         if v == 4:
             ctx.violation('payload never destroyed after pipeline() rethrew (live=%d): %s' % (p['live'], o[:300]), {'finding_key': pc.KEY_LEAK, 'case': line})
-        elif v == 5:
-            ctx.violation('pipeline() never returns: caller asleep in the completion latch, pool idle: ' + o[-200:], {'finding_key': pc.KEY_HANG, 'case': line})
         elif v == 2:
             ctx.violation('exception handling of pipeline() violates C29 outside the known domains: %s -> %s' % (line[:200], o[:400]),
                           {'case': line, 'output': o, 'cmd': 'echo "<case>" | build/harness/h_pipeline-*'})
         elif v == 1:
             ctx.broken.append('correspondence L(C29): real trace differs from the model on ' + line[:200] + ' -> ' + o[:200])
     ctx.cov['verdict_histogram'] = {'agree': hist.get(0, 0), 'differ_property_holds': hist.get(1, 0), 'fails_outside_known_domains': hist.get(2, 0),
-                                    'leak_known_domain': hist.get(4, 0), 'hang_known_domain': hist.get(5, 0)}
-    ctx.cov['witness_verdicts'] = {'leak': verdicts[0] if len(verdicts) > 0 else None, 'hang': verdicts[1] if len(verdicts) > 1 else None}
-    ctx.cov['traces_validated_against_impl'] += hist.get(0, 0) + hist.get(4, 0) + hist.get(5, 0)
+                                    'leak_known_domain': hist.get(4, 0)}
+    ctx.cov['witness_verdicts'] = dict(zip(['leak', 'former_hang', 'former_escape'], verdicts[:len(wk)]))
+    ctx.cov['traces_validated_against_impl'] += hist.get(0, 0) + hist.get(4, 0)
     ctx.cov['status_histogram'] = {k: sum(1 for _, p, _ in kept if p['status'] == v) for k, v in (('done', 0), ('deadlock', 1), ('budget', 2))}
     ctx.cov['site_histogram'] = pc.site_hist(kept)
     ctx.cov['native_live_histogram'] = {}
